@@ -125,9 +125,11 @@ const (
 	rfAbsent
 	rfEmptyList
 	rfEmptyMap
+	rfMapDupSame // map form whose first (tag, index) key occurs twice with EQUAL values (cardano-node accepts, last wins; gouroboros #1860)
+	rfMapDupDiff // ... twice with DIFFERENT values
 )
 
-var rfNames = []string{"list", "map", "absent", "empty-list", "empty-map"}
+var rfNames = []string{"list", "map", "absent", "empty-list", "empty-map", "map-duplicate-key-equal-values", "map-duplicate-key-different-values"}
 
 const (
 	dAbsent = iota
@@ -296,6 +298,14 @@ func (w *world) build(k caseT) *built {
 		b.redeemers, b.nRed = space.A(lst...), len(lst)
 	case rfMap:
 		b.redeemers, b.nRed = space.M(mp...), len(lst)
+	case rfMapDupSame:
+		// the original bytes carry the first pair twice; any re-encoding of the decoded map drops one
+		dup := append(append([]*space.Node{}, mp...), mp[0].Clone(), mp[1].Clone())
+		b.redeemers, b.nRed = space.M(dup...), len(lst)
+	case rfMapDupDiff:
+		other := space.A(space.B([]byte("other redeemer data")), space.A(space.U(7), space.U(9)))
+		dup := append(append([]*space.Node{}, mp...), mp[0].Clone(), other)
+		b.redeemers, b.nRed = space.M(dup...), len(lst)
 	case rfEmptyList:
 		b.redeemers = space.A()
 	case rfEmptyMap:
@@ -443,7 +453,7 @@ func main() {
 			if langs != 0 {
 				rfs = []int{rfList}
 				if era >= EraConway {
-					rfs = []int{rfList, rfMap}
+					rfs = []int{rfList, rfMap, rfMapDupSame, rfMapDupDiff}
 				}
 			} else {
 				rfs = []int{rfAbsent, rfEmptyList}
@@ -539,6 +549,11 @@ func main() {
 			cls = k.String() + "/declared=" + declNames[decl]
 		}
 		c.Eval(cls, declNames[decl]+":"+out)
+		if variant == "" {
+			tl.mu.Lock()
+			tl.outcomes[EraNames[k.era]+"/redeemers="+rfNames[k.rform]+"/"+declNames[decl]+":"+out]++
+			tl.mu.Unlock()
+		}
 		if v.decoded && !v.accepted && required && decl == declCorrect {
 			c.Add("specified_hash_refused", 1)
 		}
@@ -561,6 +576,8 @@ func main() {
 			comp := "langs=" + langStr(k.langs)
 			if k.extra > 0 {
 				comp = "unneeded-reference-script"
+			} else if k.rform == rfMapDupSame || k.rform == rfMapDupDiff {
+				comp = "redeemers=" + rfNames[k.rform]
 			} else if variant != "" {
 				comp = "re-encoded-container"
 			} else if b.nRed == 0 {
@@ -653,6 +670,7 @@ func main() {
 		c.Violation(p.key, p.what, p.replay)
 	}
 	c.Add("specified_hash_refused", 0)
+	c.Set("base_case_outcomes_by_era_and_redeemer_form", tl.outcomes)
 	c.Set("cases", len(jobs))
 	if len(tl.keyCases) > 0 {
 		m := map[string][]string{}
